@@ -66,8 +66,7 @@ def message(n, labelled=False):
     if n == 0:
         return b''
     head = b'To: user7@example.com\nX-Id: 7\n' + (b'X-Label: old\n' if labelled else b'') + b'Subject: message 7\n\n'
-    if n <= len(head) + 2:
-        return head + b'x\n'
+    assert n >= len(head) + 2, 'a message with this header block has at least %d bytes' % (len(head) + 2)
     return head + ws.text_body(n - len(head))
 
 
@@ -89,7 +88,7 @@ def buffer_size(tools):
 def sizes(B, tier):
     s = [0, 120, B - 1, B, B + 1, 2 * B, 3 * B + 17]
     if tier != 'quick':
-        s += [1, B // 2, 2 * B - 1, 2 * B + 1, 5 * B, 8 * B + 4095]
+        s += [B // 2, 2 * B - 1, 2 * B + 1, 5 * B, 8 * B + 4095]
     return s
 
 
